@@ -441,7 +441,7 @@ pub fn c15_judge(s: &Setting, task: &Task, r: &Value) -> Vec<Viol> {
     let cbs: Vec<Vec<u8>> = r["cb"].as_array().map(|a| a.iter().map(|x| hex::decode(x.as_str().unwrap_or("")).unwrap_or_default()).collect()).unwrap_or_default();
     let nk = format!("n={}", n);
     if let Some(site) = res.strip_prefix("panic:") {
-        v.push(Viol::new(format!("C15:panic:{}:{}", site, nk), format!("sign_mut panicked at {} ({} {:?} message of {} bytes, build {})", site, hid.name(), params, before.len(), s.label())));
+        v.push(Viol::new(format!("C15:panic:{}", site), format!("sign_mut panicked at {} ({} {} {:?} message of {} bytes, build {})", site, nk, hid.name(), params, before.len(), s.label())));
         return v;
     }
     let well_formed = before.len() > n && before[before.len() - n..].iter().all(|b| *b == 0);
@@ -656,6 +656,15 @@ pub fn c15_replay(case: &Value) -> Result<Vec<Viol>, String> {
                     break;
                 }
             }
+            if all.is_empty() {
+                // the failure may depend on what the same process did before (state shared between
+                // calls): re-run the complete task list of the build, as the check did
+                let tasks = c15_tasks(case["seed"].as_u64().unwrap_or(0), case["thorough"].as_bool().unwrap_or(false));
+                let (_, res) = run_probe(&bin, &tasks)?;
+                for (i, t) in tasks.iter().enumerate() {
+                    all.extend(c15_judge(&s, t, &res[i]));
+                }
+            }
             Ok(all)
         }
     }
@@ -694,7 +703,7 @@ pub fn run_c15(ctx: &Ctx) -> (&'static str, Map<String, Value>) {
                     let v = c15_judge(&s, task, &res[i]);
                     *classes.lock().unwrap().entry(format!("{}:{}", res[i]["res"].as_str().unwrap_or("?").split(':').next().unwrap_or("?"), if v.is_empty() { "as-expected" } else { "VIOLATION" })).or_insert(0) += 1;
                     for x in v {
-                        ctx.report(&x, || json!({"engine":"c15fv","setting":s,"task":task}));
+                        ctx.report(&x, || json!({"engine":"c15fv","setting":s,"task":task,"seed":ctx.seed,"thorough":th}));
                     }
                 }
             }
